@@ -125,6 +125,7 @@ pub async fn one(sizes: &[usize], o: &[usize], n: &[usize], st: &mut Stats, exec
     let target = tiling_bytes(sizes, n);
     let oix = tiling_index(sizes, o, hash_len);
     let nix = tiling_index(sizes, n, hash_len);
+    let o_tiling: &[usize] = o;
     let res = tokio::spawn(async move {
         let file = MemFile::new(prior);
         let mut out = CloneOutput::new(file, nix);
@@ -181,9 +182,14 @@ pub async fn one(sizes: &[usize], o: &[usize], n: &[usize], st: &mut Stats, exec
                     if *o as usize + b.len() > target.len() {
                         h::emit_oracle_fail("write-beyond-source-length", &req_e);
                     }
-                    // in place: prior content already held this chunk here
-                    let prior = tiling_bytes(sizes, o_ids(o, sizes, n));
-                    let _ = prior;
+                    // in place: the prior tiling already held this very chunk at this offset
+                    let mut poff = 0u64;
+                    for &pid in o_tiling {
+                        if poff == *o && chunk_bytes(pid, sizes[pid]) == *b {
+                            h::emit_oracle_fail("write-to-a-location-already-in-place", &req_e);
+                        }
+                        poff += sizes[pid] as u64;
+                    }
                 }
             }
         }
@@ -197,10 +203,6 @@ pub async fn one(sizes: &[usize], o: &[usize], n: &[usize], st: &mut Stats, exec
             h::emit_oracle_fail("executor-panic", &req_e);
         }
     }
-}
-
-fn o_ids<'a>(_o: &u64, _sizes: &[usize], n: &'a [usize]) -> &'a [usize] {
-    n
 }
 
 fn enumerate_tilings(max_chunks: usize, ids: usize) -> Vec<Vec<usize>> {
